@@ -784,7 +784,9 @@ class Evaluator:
             hs.guard = st.guard + (P('except', Const(str(types)), Const(tev.seq)),)
             if h.name:
                 hs.env[h.name] = Term('exception', (Const(str(types)),))
-            if self.exec_block(h.body, hs):
+            fell = self.exec_block(h.body, hs)
+            tev.data.setdefault('handler_ends', []).append({'types': types, 'falls_through': bool(fell), 'env': dict(hs.env)})
+            if fell:
                 falls.append(hs)
         if ft and s.orelse:
             ft = self.exec_block(s.orelse, body)
